@@ -2,5 +2,6 @@
 Require Extraction.
 Require Import ExtrOcamlBasic.
 Require Import Algo.C02.Model.
+Require Import Algo.C02.Spec.
 Extraction Language OCaml.
-Extraction "model.ml" create put get delete delete_all size is_empty all equal.
+Extraction "model.ml" create put get delete delete_all size is_empty all equal s_get s_put s_rem s_equal.
